@@ -1,6 +1,9 @@
 package props
 
 import (
+	"time"
+
+	sdk "github.com/cosmos/cosmos-sdk/types"
 	"math/big"
 	"sort"
 
@@ -157,7 +160,6 @@ func (m *Machine) nstAsset() int {
 	}
 	return -1
 }
-
 
 // fundedPositions lists (actor, asset) pairs with a positive withdrawable balance.
 func (m *Machine) fundedPositions(v *View, assets []int) [][2]int {
@@ -429,6 +431,9 @@ func (m *Machine) Draw(t *rapid.T, g *GenOpts) Action {
 	case "optIn", "setKey":
 		a.Op = op()
 		a.Key = rapid.IntRange(0, len(m.Keys)-1).Draw(t, "key")
+	case "price":
+		m.drawPrice(t, g, &a)
+		return a
 	case "payFee":
 		a.Actor = actor()
 		a.Amount = []string{"0", "1", "999", "1000000000000000", "123456789123456789", "50000000000000000000"}[uniform(t, 6, "fee")]
@@ -508,4 +513,94 @@ func redeemable(share, totalShare, amount *big.Int) *big.Int {
 	}
 	v := new(big.Int).Mul(share, amount)
 	return v.Div(v, totalShare)
+}
+
+// drawPrice draws an oracle price submission. Most fields are right most of the time so that
+// submissions get past admission; each field is perturbed with a small probability.
+func (m *Machine) drawPrice(t *rapid.T, g *GenOpts, a *Action) {
+	c := m.C
+	ctx := c.Ctx()
+	// validator key: mostly keys that are in the validator set
+	var valKeys []int
+	for i, k := range m.Keys {
+		if c.ValSet.HasAddress(k.ConsAddr()) {
+			valKeys = append(valKeys, i)
+		}
+	}
+	a.Key = uniform(t, len(m.Keys), "pkey")
+	if len(valKeys) > 0 && pct(t, 88, "valkey?") {
+		a.Key = valKeys[uniform(t, len(valKeys), "vkey")]
+	}
+	feeders := m.W.Cfg.Feeders
+	f := feeders[uniform(t, len(feeders), "feeder")]
+	a.Feeder = uint64(f.Asset + 1)
+	// the round a submission in the block in progress belongs to
+	h := uint64(c.Height)
+	based := uint64(0)
+	if h > f.StartBaseBlock && f.Interval > 0 {
+		based = (h - 1) - ((h-1)-f.StartBaseBlock)%f.Interval
+	}
+	a.Based = based
+	nonce := int32(1)
+	if n, found := c.App.OracleKeeper.GetNonce(ctx, sdk.ConsAddress(m.Keys[a.Key].ConsAddr()).String()); found {
+		for _, e := range n.NonceList {
+			if e.FeederID == a.Feeder {
+				nonce = int32(e.Value) + 1
+			}
+		}
+	}
+	a.PNonce = nonce
+	a.Src = 1
+	a.Dec = m.W.Cfg.Assets[f.Asset].PriceDecimal
+	a.Ts = c.Time.UTC().Format("2006-01-02 15:04:05")
+	nd := 1
+	if pct(t, 25, "twodets?") {
+		nd = 2
+	}
+	detPool := []string{"1", "2", "3"}
+	pricePool := []string{"100", "100", "100", "101", "99"}
+	for i := 0; i < nd; i++ {
+		a.Dets = append(a.Dets, detPool[uniform(t, len(detPool), "det")])
+		a.Prices = append(a.Prices, pricePool[uniform(t, len(pricePool), "pval")])
+	}
+	if nd == 2 && a.Dets[0] == a.Dets[1] {
+		a.Dets[1] = a.Dets[1] + "0"
+	}
+	// perturbations
+	if pct(t, g.HostilePct, "perturb?") {
+		a.Hostile = true
+		switch uniform(t, 12, "perturb") {
+		case 0:
+			a.Based = based + f.Interval
+		case 1:
+			if based >= f.Interval {
+				a.Based = based - f.Interval
+			} else {
+				a.Based = based + 1
+			}
+		case 2:
+			a.PNonce = nonce + int32(uniform(t, 3, "nplus")) + 1
+		case 3:
+			a.PNonce = nonce - 1
+		case 4:
+			a.Ts = c.Time.UTC().Add(time.Duration([]int{5, 6, 60, -30}[uniform(t, 4, "tsoff")]) * time.Second).Format("2006-01-02 15:04:05")
+		case 5:
+			a.Ts = []string{"", "2024-13-45 99:99:99", "yesterday"}[uniform(t, 3, "tsbad")]
+		case 6:
+			a.Dec = a.Dec + 1
+		case 7:
+			a.Src = []uint64{0, 2, 1}[uniform(t, 3, "src")]
+		case 8:
+			a.Sig = 1 + uniform(t, 3, "sig")
+		case 9:
+			a.Pad = []int{600, 820, 900, 1100}[uniform(t, 4, "pad")]
+		case 10:
+			a.Twice = true
+		case 11:
+			a.Feeder = []uint64{0, 9, uint64(len(m.W.Cfg.Assets))}[uniform(t, 3, "badfeeder")]
+		}
+	}
+	if pct(t, 12, "checktx?") {
+		a.Mode = 1 + uniform(t, 2, "mode")
+	}
 }
